@@ -3,6 +3,7 @@
   Property theorems only (helpers: Proofs/{Create,Frame,Place,Placed,CreateWF}.lean).
 -/
 import SifVerif.Proofs.CreateWF
+import SifVerif.Proofs.Zero
 namespace Sif.C03
 
 variable (sha : Bytes → Bytes) (ph : Bytes → Option Bytes)
@@ -117,5 +118,151 @@ theorem C03_aligned (s : Img) (di : DI) (t : TOpt) (now : Int) (ha : 0 < di.alig
     refine ⟨d, ?_, hu, by rw [hoff]; exact r3, by rw [hoff]; exact r1, by rw [hoff]; exact r2⟩
     simp only [commitObject]
     rw [List.getElem?_set_self hi]
+
+/-- **zeroing delete**: after `DeleteObjects(..., OptDeleteZero(true))` every byte of every deleted
+    object that is still inside the file is zero (with compaction the tail beyond the last
+    surviving object is cut off instead) -/
+theorem C03_zero_exact (s : Img) (W : WF s) (P : Placed s) (sel : Sel) (c : Bool) (t : TOpt) (now : Int)
+    (hok : (step sha ph s (.del sel true c t) now).2 = .ok)
+    (x : RawDesc) (hx : x ∈ s.rds) (hh : hit ph sel x = true) :
+    ZeroAt (step sha ph s (.del sel true c t) now).1.st.buf x.off.toNat (x.off + x.size).toNat := by
+  have hio : (step sha ph s (.del sel true c t) now).2 ≠ .err .io := by rw [hok]; simp
+  obtain ⟨st', hcalls, hst, hres⟩ := step_store sha ph s (.del sel true c t) now (by simp) hio
+  rw [hst]
+  simp only [plan] at hcalls hres ⊢
+  rcases deleteObjectsPlan_cases ph s sel true c t now with ⟨calls, e, h⟩ | ⟨_, _, h⟩
+  · rw [h] at hres; rw [hok] at hres; cases hres
+  · rw [h] at hcalls
+    simp only at hcalls
+    have hxu : x.used = true := by simp only [hit, Bool.and_eq_true] at hh; exact hh.1
+    obtain ⟨hlo, _⟩ := W.lo x hx hxu
+    obtain ⟨hdat, _⟩ := P.inData x hx hxu
+    unfold deletePre at hcalls
+    simp only [List.append_assoc] at hcalls
+    rw [calls_append] at hcalls
+    cases h1 : s.st.calls ((s.rds.filter (hit ph sel)).flatMap (zeroCalls true)) with
+    | none => simp [h1] at hcalls
+    | some s1 =>
+      simp only [h1] at hcalls
+      have hz1 := zeroCalls_zero _ x (List.mem_filter.mpr ⟨hx, hh⟩) hlo s.st s1 h1
+      refine calls_keep_zero _ _ _ s1 st' hz1 ?_ hcalls
+      apply callsKeepZero_append
+      · cases c with
+        | false => trivial
+        | true => simp only [↓reduceIte]; exact resize_keeps _ _ _ _ _
+      · intro st2
+        apply callsKeepZero_of_safe
+        apply flush_safe
+        · have hdoff : (deleteResult ph s sel c (resolveTime s t now)).h.doff = s.h.doff := by
+            have := hdrAfterDelete_doff s.h (s.rds.filter (hit ph sel))
+            cases c <;> simp [deleteResult, deleteFinish, this]
+          rw [hdoff]; exact W.doff
+        · have hdoff : (deleteResult ph s sel c (resolveTime s t now)).h.doff = s.h.doff := by
+            have := hdrAfterDelete_doff s.h (s.rds.filter (hit ph sel))
+            cases c <;> simp [deleteResult, deleteFinish, this]
+          have hlen : (deleteResult ph s sel c (resolveTime s t now)).rds.length = s.rds.length := by
+            simp [deleteResult, deleteFinish]
+          rw [hdoff, hlen]
+          have := W.tabEnd
+          omega
+
+/-- **compacting delete**: afterwards the file ends exactly at the end of the data section, which
+    is the end of the last surviving object (or the data offset when none survives) -/
+theorem C03_compact_end (s : Img) (W : WF s) (sel : Sel) (z : Bool) (t : TOpt) (now : Int)
+    (hok : (step sha ph s (.del sel z true t) now).2 = .ok) :
+    ((step sha ph s (.del sel z true t) now).1.st.buf.length : Int) =
+      (step sha ph s (.del sel z true t) now).1.h.dataOff + (step sha ph s (.del sel z true t) now).1.h.dataSize ∧
+    (step sha ph s (.del sel z true t) now).1.h.dataSize =
+      calculatedDataSize (step sha ph s (.del sel z true t) now).1.h (step sha ph s (.del sel z true t) now).1.rds := by
+  have hio : (step sha ph s (.del sel z true t) now).2 ≠ .err .io := by rw [hok]; simp
+  obtain ⟨st', hcalls, hst, hres⟩ := step_store sha ph s (.del sel z true t) now (by simp) hio
+  rw [hst]
+  simp only [plan] at hcalls hres ⊢
+  rcases deleteObjectsPlan_cases ph s sel z true t now with ⟨calls, e, h⟩ | ⟨_, _, h⟩
+  · rw [h] at hres; rw [hok] at hres; cases hres
+  · rw [h] at hcalls ⊢
+    simp only at hcalls ⊢
+    have hdoff : (deleteResult ph s sel true (resolveTime s t now)).h.doff = s.h.doff := by
+      have := hdrAfterDelete_doff s.h (s.rds.filter (hit ph sel))
+      simp [deleteResult, deleteFinish, this]
+    have hdataOff : (deleteResult ph s sel true (resolveTime s t now)).h.dataOff = s.h.dataOff := by
+      have := hdrAfterDelete_doff s.h (s.rds.filter (hit ph sel))
+      simp [deleteResult, deleteFinish, this]
+    have hlen : (deleteResult ph s sel true (resolveTime s t now)).rds.length = s.rds.length := by
+      simp [deleteResult, deleteFinish]
+    have hds : (deleteResult ph s sel true (resolveTime s t now)).h.dataSize =
+        calculatedDataSize (deleteResult ph s sel true (resolveTime s t now)).h
+          (deleteResult ph s sel true (resolveTime s t now)).rds := by
+      simp [deleteResult, deleteFinish, calculatedDataSize]
+    refine ⟨?_, hds⟩
+    have hnn := calculatedDataSize_nonneg (deleteResult ph s sel true (resolveTime s t now)).h
+      (deleteResult ph s sel true (resolveTime s t now)).rds
+    rw [← hds] at hnn
+    have h128 := W.doff
+    have htab := W.tabEnd
+    -- the end the store is resized to
+    generalize hN : (deleteResult ph s sel true (resolveTime s t now)).h.dataOff +
+      (deleteResult ph s sel true (resolveTime s t now)).h.dataSize = N at *
+    have hNge : s.h.doff + 585 * s.rds.length ≤ N := by rw [← hN, hdataOff]; omega
+    unfold deletePre at hcalls
+    simp only [↓reduceIte, hN, List.append_assoc] at hcalls
+    rw [calls_append] at hcalls
+    cases h1 : s.st.calls ((s.rds.filter (hit ph sel)).flatMap (zeroCalls z)) with
+    | none => simp [h1] at hcalls
+    | some s1 =>
+      simp only [h1] at hcalls
+      have hla : lenAfter s.st ((s.rds.filter (hit ph sel)).flatMap (zeroCalls z)) = s1.buf.length := by
+        unfold lenAfter
+        rw [callsPrefix_of_calls s.st s1 _ h1]
+      rw [hla] at hcalls
+      simp only [Option.bind_some] at hcalls
+      rw [calls_append] at hcalls
+      -- resize: afterwards the store is exactly N bytes long
+      have hrs : ∃ s2, s1.calls (resizeCalls s1.buf.length N) = some s2 ∧ (s2.buf.length : Int) = N := by
+        unfold resizeCalls
+        by_cases hc : N ≤ (s1.buf.length : Int)
+        · simp only [hc, ↓reduceIte, List.cons_append, List.nil_append, Store.calls, Store.call, Store.seekEnd,
+            Store.truncate, show ¬ N < 0 by omega]
+          cases hbe : s1.be with
+          | buf =>
+            have : ¬ N.toNat > s1.buf.length := by omega
+            simp only [this, ↓reduceIte]
+            exact ⟨_, rfl, by simp; omega⟩
+          | file => exact ⟨_, rfl, by simp; omega⟩
+        · simp only [hc, ↓reduceIte, List.cons_append, List.nil_append, Store.calls, Store.call, Store.seekEnd]
+          have hne : (zeros (N - s1.buf.length).toNat).isEmpty = false := by
+            have : 0 < (N - s1.buf.length).toNat := by omega
+            cases hz : zeros (N - s1.buf.length).toNat with
+            | nil => simp [zeros] at hz; omega
+            | cons => rfl
+          have hw : ({ s1 with pos := s1.buf.length } : Store).write (zeros (N - s1.buf.length).toNat) =
+              { s1 with buf := writeAt s1.buf s1.buf.length (zeros (N - s1.buf.length).toNat),
+                        pos := s1.buf.length + (zeros (N - s1.buf.length).toNat).length } := by
+            cases hbe : s1.be <;> simp only [Store.write, hbe, hne, Bool.false_eq_true, ↓reduceIte]
+          rw [hw]
+          exact ⟨_, rfl, by simp only [writeAt_length, zeros_length]; omega⟩
+      obtain ⟨s2, hs2, hl2⟩ := hrs
+      rw [hs2] at hcalls
+      simp only [Option.bind_some] at hcalls
+      -- the flush stays inside those N bytes
+      have h0 : ¬ (deleteResult ph s sel true (resolveTime s t now)).h.doff < 0 := by rw [hdoff]; omega
+      simp only [flushCalls, writeDescriptorsCalls, writeHeaderCalls, List.cons_append, List.nil_append,
+        Store.calls, Store.call, Store.seekStart, h0, ↓reduceIte, show ¬ (0 : Int) < 0 by omega,
+        Option.some.injEq] at hcalls
+      subst hcalls
+      have lw : ∀ (st : Store) (pos : Nat) (p : Bytes), pos + p.length ≤ st.buf.length →
+          (({ st with pos := pos } : Store).write p).buf.length = st.buf.length := by
+        intro st pos p hp
+        cases hbe : st.be <;> simp only [Store.write, hbe]
+        · simp; omega
+        · split
+          · rfl
+          · simp; omega
+      rw [lw, lw]
+      · exact hl2
+      · simp [encTable_length, hlen, hdoff]; omega
+      · rw [lw]
+        · simp [encHdr_length]; omega
+        · simp [encTable_length, hlen, hdoff]; omega
 
 end Sif.C03
